@@ -3,7 +3,7 @@
 
   Property theorems over the request pipeline model (`Model/Req.lean`: `viaStep` inside
   `processRequest`) and the C18 vocabulary of `Model/C18.lean`.  Only property theorems and
-  non-vacuity examples live here; helper lemmas are in `Lemmas/C18a … C18e.lean`.  The chain is ALL
+  non-vacuity examples live here; helper lemmas are in `Lemmas/C18a … C18f.lean`.  The chain is ALL
   Via field lines of the request (RFC 9110 §5.3) — the clauses `c18_chain_kept_full` and
   `c18_loop_detected_full`, false of the code before the repair of F11 (only the first line was
   read), are theorems now.
@@ -24,7 +24,7 @@
   Concrete examples are evaluated by the kernel (`decide +kernel`: plain `decide` cannot unfold the
   string literals of Model/Req.lean; no axiom beyond `propext`/`Quot.sound` is involved).
 -/
-import FwdVerif.Lemmas.C18e
+import FwdVerif.Lemmas.C18f
 
 namespace FwdVerif
 namespace C18
@@ -456,6 +456,546 @@ example : TagClean tagW ∧
 theorem c18_embedded_tag_witness :
     (viaElements (viaLines reqEmbedded.fields)).any (isOwnElement cfgW.tag) = false ∧
       isLoopRefusal (processRequest cfgW ctxW reqEmbedded) = true := by decide +kernel
+
+/-! ## G. CONNECT requests, over every upstream scheme
+
+  `Req.processConnect` models `proxyConn.handleConnectRequest` → `martian.Proxy.connect`.  A CONNECT
+  is forwarded as an HTTP message only to an upstream `http` or `https` proxy (`connectHead`); a direct
+  dial and a SOCKS5 upstream carry no header at all.  What the property can demand:
+    * http / https upstream: the head the proxy receives = the client's chain + this instance's element
+      (`c18_connect_head_appends`, `c18_connect_head_every_scheme`), identically for both schemes
+      (`c18_connect_head_scheme_irrelevant`);
+    * every upstream incl. SOCKS5, direct, interception: own element in the client's chain ⇒ 400 before
+      anything is dialled (`c18_connect_loop_refused`);
+    * SOCKS5 / direct: nothing is sent but the authority (`c18_connect_socks_no_head`) — a loop of CONNECT
+      *messages* cannot arise there, the tunnel's payload is handled as the requests it consists of. -/
+
+/-- The CONNECT head an upstream proxy receives carries ONE Via field line whose elements are the
+    elements of ALL Via lines of the client's CONNECT, in order, followed by `proto tag`. -/
+theorem c18_connect_head_appends {cfg : Cfg} {ctx : Ctx} {c : ConnectReq} {head : OutMsg}
+    (h : connectHead (processConnect cfg ctx c) = some head)
+    (hr : rulesAvoidVia cfg.connectRules = true) (hn : viaNominated c.fields = false)
+    (ht : TagClean cfg.tag) :
+    ∃ v, outVia head = [v] ∧
+      viaElements [v] = viaElements (viaLines c.fields) ++ [ownElement cfg.tag c.minor] := by
+  obtain ⟨g, h2, hp, hout, _, _⟩ := connect_head_out h hr
+  obtain ⟨hget, _, hminor⟩ := preViaConnect_via hp hn
+  refine ⟨_, hout, ?_⟩
+  rw [hget, hminor]
+  exact elementsOf_newVia ht c.minor _
+
+/-- For EVERY upstream scheme that carries HTTP — `http` and `https` alike — a CONNECT that passes the
+    modifier stack goes out as a head with exactly the client's chain + this instance's element. -/
+theorem c18_connect_head_every_scheme {cfg : Cfg} {ctx : Ctx} {c : ConnectReq} {hp : Bytes}
+    {auth : Option Bytes}
+    (hup : cfg.upstream = .http hp auth ∨ cfg.upstream = .https hp auth) (hm : cfg.mitm = false)
+    (hpass : connectPassed (processConnect cfg ctx c) = true)
+    (hr : rulesAvoidVia cfg.connectRules = true) (hn : viaNominated c.fields = false)
+    (ht : TagClean cfg.tag) :
+    ∃ head, connectHead (processConnect cfg ctx c) = some head ∧
+      viaElements (outVia head) = viaElements (viaLines c.fields) ++ [ownElement cfg.tag c.minor] := by
+  have hhead : ∃ head, connectHead (processConnect cfg ctx c) = some head := by
+    rcases processConnect_cases cfg ctx c with ⟨o, hpe, ho⟩ | ⟨g, h2, _, _, ho⟩ | ⟨g, h2, h3, _, _, ho⟩
+    · rw [ho, (preViaConnect_error hpe).1] at hpass
+      cases hpass
+    · rw [ho] at hpass
+      cases hpass
+    · exact ⟨_, by rw [ho]; exact connectDispatch_head hup hm⟩
+  obtain ⟨head, hh⟩ := hhead
+  obtain ⟨v, hv, he⟩ := c18_connect_head_appends hh hr hn ht
+  exact ⟨head, hh, by rw [hv, he]⟩
+
+example : connectPassed (processConnect cfgWhttps ctxTLS (connectWith 0 [bs "1.0 fred", bs "1.1 edge"])) = true ∧
+    cfgWhttps.mitm = false ∧ rulesAvoidVia cfgWhttps.connectRules = true ∧
+    viaNominated (connectWith 0 [bs "1.0 fred", bs "1.1 edge"]).fields = false ∧
+    -- … and the head an HTTPS proxy receives: `Via: 1.0 fred, 1.1 edge, 1.0 <tag>`
+    (match connectHead (processConnect cfgWhttps ctxTLS (connectWith 0 [bs "1.0 fred", bs "1.1 edge"])) with
+      | some head => viaElements (outVia head) == [bs "1.0 fred", bs "1.1 edge", ownElement tagW 0]
+      | none => false) = true := by decide +kernel
+
+/-- The scheme is a parameter that does not matter: reaching the upstream proxy over TLS instead
+    changes nothing in what the CONNECT is answered with or forwarded as. -/
+theorem c18_connect_head_scheme_irrelevant (cfg : Cfg) (ctx : Ctx) (c : ConnectReq) :
+    connectView (processConnect (httpsify cfg) ctx c) = connectView (processConnect cfg ctx c) ∧
+      connectHead (processConnect (httpsify cfg) ctx c) = connectHead (processConnect cfg ctx c) :=
+  ⟨httpsify_processConnect cfg ctx c, connectHead_of_view (httpsify_processConnect cfg ctx c)⟩
+
+example : (httpsify cfgWhttp).upstream = cfgWhttps.upstream ∧ (httpsify cfgWsocks).upstream = cfgWsocks.upstream := by
+  decide +kernel
+
+/-- … and the same for a plain request: the message forwarded to an `https` upstream proxy is the
+    message forwarded to an `http` one. -/
+theorem c18_request_scheme_irrelevant (cfg : Cfg) (ctx : Ctx) (r : Request) :
+    eraseHop (processRequest (httpsify cfg) ctx r) = eraseHop (processRequest cfg ctx r) :=
+  httpsify_processRequest cfg ctx r
+
+/-- Whatever the upstream (http, https, SOCKS5, none) and also when CONNECTs are intercepted: a CONNECT
+    whose chain contains this instance's tag never passes — no tunnel is opened, nothing is dialled —
+    and unless an earlier check refused it the answer is `400` for reason `loop`. -/
+theorem c18_connect_loop_refused {cfg : Cfg} {ctx : Ctx} {c : ConnectReq}
+    (hn : viaNominated c.fields = false) (hne : cfg.tag ≠ [])
+    (he : ∃ e ∈ viaElements (viaLines c.fields), cfg.tag <:+: e) :
+    connectPassed (processConnect cfg ctx c) = false ∧ connectActions cfg ctx c = [] ∧
+      (connectReachesVia cfg c = true → processConnect cfg ctx c = .refused 400 .loop) := by
+  obtain ⟨e, hmem, hte⟩ := he
+  have hi : cfg.tag <:+: viaChain (viaLines c.fields) := hte.trans (mem_elementsOf_infix hmem)
+  have hv : viaChain (viaLines c.fields) ≠ [] := fun h0 => hne (List.infix_nil.mp (h0 ▸ hi))
+  obtain ⟨h1, h2⟩ := connect_tagged_not_passed (ctx := ctx) hn hv ((isInfix_iff _ _).mpr hi)
+  refine ⟨h1, ?_, h2⟩
+  unfold connectActions
+  cases hpc : processConnect cfg ctx c with
+  | tunnel a => rw [hpc] at h1; cases h1
+  | mitm => rfl
+  | refused s w => rfl
+  | badRequest => rfl
+  | unreadable => rfl
+  | routeError => rfl
+
+example : viaNominated (connectWith 1 [bs "1.0 fred", ownElement tagW 0]).fields = false ∧ cfgWsocks.tag ≠ [] ∧
+    ownElement tagW 0 ∈ viaElements (viaLines (connectWith 1 [bs "1.0 fred", ownElement tagW 0]).fields) ∧
+    connectReachesVia cfgWsocks (connectWith 1 [bs "1.0 fred", ownElement tagW 0]) = true ∧
+    isConnectLoopRefusal (processConnect cfgWsocks ctxW (connectWith 1 [bs "1.0 fred", ownElement tagW 0])) = true ∧
+    isConnectLoopRefusal (processConnect cfgWhttps ctxTLS (connectWith 1 [bs "1.0 fred", ownElement tagW 0])) = true ∧
+    isConnectLoopRefusal (processConnect cfgW ctxW (connectWith 1 [bs "1.0 fred", ownElement tagW 0])) = true := by
+  decide +kernel
+
+/-- SOCKS5 upstream (and direct dial): no header can travel.  What the code does: no HTTP message is
+    sent at all; the SOCKS request names the CONNECT authority and nothing else. -/
+theorem c18_connect_socks_no_head {cfg : Cfg} {ctx : Ctx} {c : ConnectReq}
+    (hup : (∃ hp a, cfg.upstream = .socks5 hp a) ∨ cfg.upstream = .none) :
+    connectHead (processConnect cfg ctx c) = none ∧
+      ∀ a, processConnect cfg ctx c = .tunnel a →
+        a.sent = [] ∧ ((∃ hp x, cfg.upstream = .socks5 hp x) → a.socksTarget = some c.authority) := by
+  rcases processConnect_cases cfg ctx c with ⟨o, hpe, ho⟩ | ⟨g, h2, _, _, ho⟩ | ⟨g, h2, h3, _, _, ho⟩
+  · rw [ho]
+    have hnp := (preViaConnect_error hpe).1
+    refine ⟨?_, fun a ha => ?_⟩
+    · cases hh : connectHead o with
+      | none => rfl
+      | some head => rw [connectHead_some_passed hh] at hnp; cases hnp
+    · rw [ha] at hnp; cases hnp
+  · rw [ho]
+    exact ⟨rfl, fun a ha => by cases ha⟩
+  · rw [ho]
+    exact connectDispatch_raw hup
+
+example : isTunnel (processConnect cfgWsocks ctxW connectPlain) = true ∧
+    (match processConnect cfgWsocks ctxW connectPlain with
+      | .tunnel a => a.sent.isEmpty && a.socksTarget == some (bs "origin.test:443")
+      | _ => false) = true := by decide +kernel
+
+/-- A CONNECT whose chain holds no element containing this instance's tag passes the modifier stack,
+    whatever the upstream scheme: a tunnel is opened (or the connection intercepted). -/
+theorem c18_connect_foreign_forwarded {cfg : Cfg} {ctx : Ctx} {c : ConnectReq}
+    (hn : viaNominated c.fields = false) (ht : TagClean cfg.tag)
+    (hf : ∀ e ∈ viaElements (viaLines c.fields), ¬ cfg.tag <:+: e)
+    (hreach : connectReachesVia cfg c = true)
+    (hup : ∀ sc hp a, cfg.upstream ≠ .other sc hp a) (hfail : cfg.upstream ≠ .failed) :
+    connectPassed (processConnect cfg ctx c) = true := by
+  apply connect_untagged_passed hn _ hreach hup hfail
+  intro _
+  apply isInfix_false_of_not
+  intro hi
+  obtain ⟨e, he, hte⟩ := infix_element ht.ne ht.noComma ht.noWs hi
+  exact hf e he hte
+
+example : viaNominated (connectWith 1 [ownElement tagX 1]).fields = false ∧
+    (viaElements (viaLines (connectWith 1 [ownElement tagX 1]).fields)).all (fun e => !isInfix cfgWhttps.tag e) = true ∧
+    connectReachesVia cfgWhttps (connectWith 1 [ownElement tagX 1]) = true ∧
+    isTunnel (processConnect cfgWhttps ctxTLS (connectWith 1 [ownElement tagX 1])) = true := by decide +kernel
+
+/-! ### loops of CONNECT requests over upstream-proxy links (any mix of http / https links) -/
+
+/-- One instance whose upstream proxy link leads back to itself: the CONNECT head it forwarded is
+    not forwarded a second time; it is answered `400 loop` unless an earlier check refuses it. -/
+theorem c18_connect_self_loop_terminates {cfg : Cfg} {ctx ctx' : Ctx} {c : ConnectReq} {head : OutMsg}
+    (h : connectHead (processConnect cfg ctx c) = some head)
+    (hr : rulesAvoidVia cfg.connectRules = true)
+    (hn' : viaNominated (reinjectConnect head).fields = false) :
+    connectPassed (processConnect cfg ctx' (reinjectConnect head)) = false ∧
+      (connectReachesVia cfg (reinjectConnect head) = true →
+        processConnect cfg ctx' (reinjectConnect head) = .refused 400 .loop) := by
+  obtain ⟨g, h2, _, hout, _, hl⟩ := connect_head_out h hr
+  have hfv : viaChain (viaLines (reinjectConnect head).fields) = newVia cfg.tag g.minor (viaChainOf h2) := by
+    rw [viaLines_reinjectConnect hl, hout]; rfl
+  apply connect_tagged_not_passed hn'
+  · rw [hfv]; exact newVia_ne_nil _ _
+  · rw [hfv]; exact (isInfix_iff _ _).mpr (tag_infix_newVia _ _ _)
+
+-- a TLS listener whose `https` upstream proxy is the listener itself
+example : (runConnectLoop [(cfgWhttps, ctxTLS)] 6 0 connectPlain).map isTunnel = [true, false] ∧
+    (runConnectLoop [(cfgWhttps, ctxTLS)] 6 0 connectPlain).map isConnectLoopRefusal = [false, true] ∧
+    (runConnectLoop [(cfgWhttp, ctxW)] 6 0 connectPlain).map isConnectLoopRefusal = [false, true] := by
+  decide +kernel
+
+/-- Two instances A → B → A over upstream-proxy links: when the head A forwarded is forwarded by B and
+    comes back to A, A does not forward it again. -/
+theorem c18_connect_two_instance_loop_terminates {A B : Cfg} {ctxA ctxB ctxA' : Ctx} {c : ConnectReq}
+    {o1 o2 : OutMsg}
+    (h1 : connectHead (processConnect A ctxA c) = some o1)
+    (h2 : connectHead (processConnect B ctxB (reinjectConnect o1)) = some o2)
+    (hrA : rulesAvoidVia A.connectRules = true) (hrB : rulesAvoidVia B.connectRules = true)
+    (hn1 : viaNominated (reinjectConnect o1).fields = false)
+    (hn2 : viaNominated (reinjectConnect o2).fields = false) (hne : A.tag ≠ []) :
+    connectPassed (processConnect A ctxA' (reinjectConnect o2)) = false ∧
+      (connectReachesVia A (reinjectConnect o2) = true →
+        processConnect A ctxA' (reinjectConnect o2) = .refused 400 .loop) := by
+  obtain ⟨g1, k1, _, hout1, _, hl1⟩ := connect_head_out h1 hrA
+  obtain ⟨g2, k2, hp2, hout2, _, hl2⟩ := connect_head_out h2 hrB
+  have hB : viaChainOf k2 = newVia A.tag g1.minor (viaChainOf k1) := by
+    rw [(preViaConnect_via hp2 hn1).1, viaLines_reinjectConnect hl1, hout1]; rfl
+  have hfv : viaChain (viaLines (reinjectConnect o2).fields) =
+      newVia B.tag g2.minor (newVia A.tag g1.minor (viaChainOf k1)) := by
+    rw [viaLines_reinjectConnect hl2, hout2, hB]; rfl
+  apply connect_tagged_not_passed hn2
+  · rw [hfv]; exact newVia_ne_nil _ _
+  · rw [hfv]
+    exact (isInfix_iff _ _).mpr (infix_newVia_of_infix _ _ hne (tag_infix_newVia _ _ _))
+
+-- A (https upstream) and B (https upstream) with the same configured name, TLS listeners
+example : (runConnectLoop [(cfgWhttps, ctxTLS), (cfgXhttps, ctxTLS)] 8 0 connectPlain).map isTunnel = [true, true, false] ∧
+    (runConnectLoop [(cfgWhttps, ctxTLS), (cfgXhttps, ctxTLS)] 8 0 connectPlain).map isConnectLoopRefusal =
+      [false, false, true] := by decide +kernel
+
+/-- Bounded number of CONNECT messages, one instance: at most two passes however much fuel. -/
+theorem c18_connect_self_loop_bounded (cfg : Cfg) (ctx : Ctx) (c : ConnectReq) (fuel : Nat)
+    (hr : rulesAvoidVia cfg.connectRules = true)
+    (hn : ∀ head, connectHead (processConnect cfg ctx c) = some head →
+      viaNominated (reinjectConnect head).fields = false) :
+    (runConnectLoop [(cfg, ctx)] fuel 0 c).length ≤ 2 := by
+  have hi : ∀ i, [(cfg, ctx)][i % [(cfg, ctx)].length]? = some (cfg, ctx) := by
+    intro i; simp [Nat.mod_one]
+  cases fuel with
+  | zero => simp [runConnectLoop, runConnectLoopWith]
+  | succ fuel =>
+    rw [runConnectLoop_step _ _ _ _ cfg ctx (hi 0)]
+    cases h : connectHead (processConnect cfg ctx c) with
+    | none => simp
+    | some head =>
+      simp only [List.length_cons]
+      cases fuel with
+      | zero => simp [runConnectLoop, runConnectLoopWith]
+      | succ fuel =>
+        rw [runConnectLoop_step _ _ _ _ cfg ctx (hi 1)]
+        have h2 := (c18_connect_self_loop_terminates (ctx' := ctx) h hr (hn head h)).1
+        cases h' : connectHead (processConnect cfg ctx (reinjectConnect head)) with
+        | none => simp
+        | some head' => rw [connectHead_some_passed h'] at h2; cases h2
+
+/-- Bounded number of CONNECT messages, two instances A → B → A → …: at most three passes. -/
+theorem c18_connect_two_instance_loop_bounded (A B : Cfg) (ctxA ctxB : Ctx) (c : ConnectReq) (fuel : Nat)
+    (hrA : rulesAvoidVia A.connectRules = true) (hrB : rulesAvoidVia B.connectRules = true)
+    (hne : A.tag ≠ [])
+    (hn1 : ∀ o1, connectHead (processConnect A ctxA c) = some o1 →
+      viaNominated (reinjectConnect o1).fields = false)
+    (hn2 : ∀ o1 o2, connectHead (processConnect A ctxA c) = some o1 →
+      connectHead (processConnect B ctxB (reinjectConnect o1)) = some o2 →
+      viaNominated (reinjectConnect o2).fields = false) :
+    (runConnectLoop [(A, ctxA), (B, ctxB)] fuel 0 c).length ≤ 3 := by
+  have hiA : ∀ i, i % 2 = 0 → [(A, ctxA), (B, ctxB)][i % [(A, ctxA), (B, ctxB)].length]? = some (A, ctxA) := by
+    intro i h; simp [h]
+  have hiB : ∀ i, i % 2 = 1 → [(A, ctxA), (B, ctxB)][i % [(A, ctxA), (B, ctxB)].length]? = some (B, ctxB) := by
+    intro i h; simp [h]
+  cases fuel with
+  | zero => simp [runConnectLoop, runConnectLoopWith]
+  | succ fuel =>
+    rw [runConnectLoop_step _ _ _ _ A ctxA (hiA 0 rfl)]
+    cases h1 : connectHead (processConnect A ctxA c) with
+    | none => simp
+    | some o1 =>
+      simp only [List.length_cons]
+      cases fuel with
+      | zero => simp [runConnectLoop, runConnectLoopWith]
+      | succ fuel =>
+        rw [runConnectLoop_step _ _ _ _ B ctxB (hiB 1 rfl)]
+        cases h2 : connectHead (processConnect B ctxB (reinjectConnect o1)) with
+        | none => simp
+        | some o2 =>
+          simp only [List.length_cons]
+          cases fuel with
+          | zero => simp [runConnectLoop, runConnectLoopWith]
+          | succ fuel =>
+            rw [runConnectLoop_step _ _ _ _ A ctxA (hiA 2 rfl)]
+            have h3 := (c18_connect_two_instance_loop_terminates (ctxA' := ctxA) h1 h2 hrA hrB
+              (hn1 o1 h1) (hn2 o1 o2 h1 h2) hne).1
+            cases h' : connectHead (processConnect A ctxA (reinjectConnect o2)) with
+            | none => simp
+            | some o3 => rw [connectHead_some_passed h'] at h3; cases h3
+
+/-- The scheme of the links is a parameter of the loop that does not matter: replacing every `http`
+    upstream link by an `https` one leaves every hop's answer and every forwarded CONNECT head unchanged — so a
+    loop through HTTPS listeners and `https` upstream proxies ends exactly where the `http` one does. -/
+theorem c18_connect_loop_scheme_irrelevant (insts : List (Cfg × Ctx)) (fuel i : Nat) (c : ConnectReq) :
+    (runConnectLoop (insts.map fun p => (httpsify p.1, p.2)) fuel i c).map connectView =
+      (runConnectLoop insts fuel i c).map connectView := by
+  induction fuel generalizing i c with
+  | zero => simp [runConnectLoop, runConnectLoopWith]
+  | succ fuel ih =>
+    cases hg : insts[i % insts.length]? with
+    | none =>
+      have hg' : (insts.map fun p => (httpsify p.1, p.2))[i % (insts.map fun p => (httpsify p.1, p.2)).length]? = none := by
+        rw [List.length_map, List.getElem?_map, hg]; rfl
+      unfold runConnectLoop
+      rw [runConnectLoopWith, runConnectLoopWith]
+      simp only [hg, hg']
+    | some p =>
+      obtain ⟨cfg, ctx⟩ := p
+      have hg' : (insts.map fun p => (httpsify p.1, p.2))[i % (insts.map fun p => (httpsify p.1, p.2)).length]? =
+          some (httpsify cfg, ctx) := by
+        rw [List.length_map, List.getElem?_map, hg]; rfl
+      rw [runConnectLoop_step _ _ _ _ _ _ hg', runConnectLoop_step _ _ _ _ _ _ hg]
+      have hv := httpsify_processConnect cfg ctx c
+      rw [connectHead_of_view hv]
+      cases connectHead (processConnect cfg ctx c) with
+      | none => simp only [List.map_cons, List.map_nil, hv]
+      | some head => simp only [List.map_cons, hv, ih]
+
+/-- … and so for plain requests (`runLoop`): every hop's outcome and forwarded message is the same
+    whether the upstream proxies are reached over TLS or not; the loop theorems of section D hold for
+    every configuration, hence for every mix of `http`, `https` and SOCKS5 links. -/
+theorem c18_loop_scheme_irrelevant (insts : List (Cfg × Ctx)) (fuel i : Nat) (r : Request) :
+    (runLoop (insts.map fun p => (httpsify p.1, p.2)) fuel i r).map eraseHop =
+      (runLoop insts fuel i r).map eraseHop := by
+  induction fuel generalizing i r with
+  | zero => simp [runLoop]
+  | succ fuel ih =>
+    cases hg : insts[i % insts.length]? with
+    | none =>
+      have hg' : (insts.map fun p => (httpsify p.1, p.2))[i % (insts.map fun p => (httpsify p.1, p.2)).length]? = none := by
+        rw [List.length_map, List.getElem?_map, hg]; rfl
+      rw [runLoop, runLoop]
+      simp only [hg, hg']
+    | some p =>
+      obtain ⟨cfg, ctx⟩ := p
+      have hg' : (insts.map fun p => (httpsify p.1, p.2))[i % (insts.map fun p => (httpsify p.1, p.2)).length]? =
+          some (httpsify cfg, ctx) := by
+        rw [List.length_map, List.getElem?_map, hg]; rfl
+      rw [runLoop_step _ _ _ _ _ _ hg', runLoop_step _ _ _ _ _ _ hg]
+      rcases eraseHop_eq_cases (httpsify_processRequest cfg ctx r) with ⟨hop, hop', out, ha, hb⟩ | ⟨hab, hnf⟩
+      · rw [ha, hb]
+        simp only [List.map_cons, eraseHop, ih]
+      · rw [hab] at hnf ⊢
+        cases hpr : processRequest cfg ctx r with
+        | forwarded hop out => rw [hpr] at hnf; cases hnf
+        | refused s w => rfl
+        | badRequest => rfl
+        | unreadable => rfl
+        | routeError => rfl
+
+example : (runLoop [(cfgWhttps, ctxTLS), (cfgXhttps, ctxTLS)] 6 0 (reqWith 1 [])).map isForwarded = [true, true, false] ∧
+    (runLoop [(cfgWhttps, ctxTLS), (cfgXhttps, ctxTLS)] 6 0 (reqWith 1 [])).map isLoopRefusal = [false, false, true] ∧
+    (runLoop [(cfgWsocks, ctxW)] 6 0 reqPlain).map isLoopRefusal = [false, true] := by decide +kernel
+
+/-- The hypothesis "the header is handed to the dialer for BOTH schemes" is needed.  In the variant in
+    which the dialer for an `https` upstream proxy does not get the client's header
+    (`processConnectNoHdrHttps`), an instance whose `https` upstream leads back to itself never sees
+    its own element: the loop is never detected — every hop opens another tunnel, for any fuel. -/
+theorem c18_nohdr_https_variant_witness (fuel : Nat) :
+    (runConnectLoopWith processConnectNoHdrHttps [(cfgWhttps, ctxTLS)] fuel 0 connectPlain).length = fuel ∧
+      (∀ o ∈ runConnectLoopWith processConnectNoHdrHttps [(cfgWhttps, ctxTLS)] fuel 0 connectPlain,
+        isTunnel o = true) ∧
+      -- the code, same configuration and request: detected at the first repetition
+      (runConnectLoop [(cfgWhttps, ctxTLS)] (fuel + 2) 0 connectPlain).map isConnectLoopRefusal = [false, true] := by
+  have hi : ∀ i, [(cfgWhttps, ctxTLS)][i % [(cfgWhttps, ctxTLS)].length]? = some (cfgWhttps, ctxTLS) := by
+    intro i; simp [Nat.mod_one]
+  -- the head never carries anything of the client's: it is the same at every hop
+  have f0 : connectHead (processConnectNoHdrHttps cfgWhttps ctxTLS connectPlain) = some headNoHdr :=
+    headIs_eq (by decide +kernel)
+  have f1 : connectHead (processConnectNoHdrHttps cfgWhttps ctxTLS (reinjectConnect headNoHdr)) = some headNoHdr :=
+    headIs_eq (by decide +kernel)
+  have step : ∀ (fuel i : Nat) (c : ConnectReq),
+      connectHead (processConnectNoHdrHttps cfgWhttps ctxTLS c) = some headNoHdr →
+      runConnectLoopWith processConnectNoHdrHttps [(cfgWhttps, ctxTLS)] (fuel + 1) i c =
+        processConnectNoHdrHttps cfgWhttps ctxTLS c ::
+          runConnectLoopWith processConnectNoHdrHttps [(cfgWhttps, ctxTLS)] fuel (i + 1) (reinjectConnect headNoHdr) := by
+    intro fuel i c hc
+    rw [runConnectLoopWith]
+    simp only [hi, hc]
+  have fix : ∀ (fuel i : Nat),
+      (runConnectLoopWith processConnectNoHdrHttps [(cfgWhttps, ctxTLS)] fuel i (reinjectConnect headNoHdr)).length = fuel ∧
+      ∀ o ∈ runConnectLoopWith processConnectNoHdrHttps [(cfgWhttps, ctxTLS)] fuel i (reinjectConnect headNoHdr),
+        isTunnel o = true := by
+    intro fuel
+    induction fuel with
+    | zero => intro i; simp [runConnectLoopWith]
+    | succ fuel ih =>
+      intro i
+      rw [step fuel i _ f1]
+      obtain ⟨hl, ha⟩ := ih (i + 1)
+      refine ⟨by simp only [List.length_cons, hl], ?_⟩
+      intro o ho
+      rcases List.mem_cons.mp ho with rfl | ho
+      · exact connectHead_some_tunnel f1
+      · exact ha o ho
+  refine ⟨?_, ?_, ?_⟩
+  · cases fuel with
+    | zero => simp [runConnectLoopWith]
+    | succ fuel =>
+      rw [step fuel 0 _ f0]
+      simp only [List.length_cons, (fix fuel 1).1]
+  · cases fuel with
+    | zero => simp [runConnectLoopWith]
+    | succ fuel =>
+      rw [step fuel 0 _ f0]
+      intro o ho
+      rcases List.mem_cons.mp ho with rfl | ho
+      · exact connectHead_some_tunnel f0
+      · exact (fix fuel 1).2 o ho
+  · -- two passes whatever the fuel: the second is the refusal
+    have g0 : ∃ head, connectHead (processConnect cfgWhttps ctxTLS connectPlain) = some head ∧
+        connectHead (processConnect cfgWhttps ctxTLS (reinjectConnect head)) = none ∧
+        isConnectLoopRefusal (processConnect cfgWhttps ctxTLS connectPlain) = false ∧
+        isConnectLoopRefusal (processConnect cfgWhttps ctxTLS (reinjectConnect head)) = true := by
+      cases hh : connectHead (processConnect cfgWhttps ctxTLS connectPlain) with
+      | none =>
+        have : (connectHead (processConnect cfgWhttps ctxTLS connectPlain)).isSome = true := by decide +kernel
+        rw [hh] at this; cases this
+      | some head =>
+        have hr : rulesAvoidVia cfgWhttps.connectRules = true := by decide +kernel
+        have hn' : viaNominated (reinjectConnect head).fields = false := by
+          have : (match connectHead (processConnect cfgWhttps ctxTLS connectPlain) with
+            | some h => viaNominated (reinjectConnect h).fields | none => true) = false := by decide +kernel
+          rw [hh] at this; exact this
+        have hreach : connectReachesVia cfgWhttps (reinjectConnect head) = true := by
+          have : (match connectHead (processConnect cfgWhttps ctxTLS connectPlain) with
+            | some h => connectReachesVia cfgWhttps (reinjectConnect h) | none => false) = true := by decide +kernel
+          rw [hh] at this; exact this
+        have h2 := (c18_connect_self_loop_terminates (ctx' := ctxTLS) hh hr hn').2 hreach
+        refine ⟨head, rfl, ?_, ?_, ?_⟩
+        · rw [h2]; rfl
+        · have hp := connectHead_some_passed hh
+          cases hpc : processConnect cfgWhttps ctxTLS connectPlain with
+          | refused s w => rw [hpc] at hp; cases hp
+          | tunnel a => rfl
+          | mitm => rfl
+          | badRequest => rfl
+          | unreadable => rfl
+          | routeError => rfl
+        · rw [h2]; rfl
+    obtain ⟨head, h1, h2, r1, r2⟩ := g0
+    rw [runConnectLoop_step _ _ _ _ _ _ (hi 0)]
+    simp only [h1]
+    rw [runConnectLoop_step _ _ _ _ _ _ (hi 1)]
+    simp only [h2, List.map_cons, List.map_nil, r1, r2]
+
+/-! ## H. Instance identity
+
+  `id : ι → Bytes` assigns every instance constructed in the process the tag of its Via element
+  (`instCfg id base i` = the pipeline configuration of instance `i`).  What the code must guarantee is
+  that `id` is injective over those instances, HOWEVER their configuration values were obtained
+  (separate defaults, a copy of one value, the same object handed to the constructor twice).  The
+  harness asserts exactly this on the elements it observes of every fleet it builds. -/
+
+/-- Distinct instances always forward each other's requests: what instance `i` forwarded is forwarded
+    by any other instance `j` (same configured name: the hardest case), given that the client's chain
+    did not already contain `j`'s tag and nothing else refuses it. -/
+theorem c18_distinct_instances_forwarded {ι : Type} (name : Bytes) (id : ι → Bytes) (base : ι → Cfg)
+    (hinj : Function.Injective id) (hshape : ∀ i, TagShape name (id i))
+    (hname : name.all isTokenByte = true) {i j : ι} (hij : i ≠ j) {ctx ctx' : Ctx} {r : Request}
+    {hop : Hop} {out : OutMsg}
+    (h : processRequest (instCfg id base i) ctx r = .forwarded hop out)
+    (hri : rulesAvoidVia (base i).rules = true)
+    (hn : viaNominated r.fields = false) (hn' : viaNominated (reinject out).fields = false)
+    (hclean : ∀ e ∈ viaElements (viaLines r.fields), ¬ id j <:+: e)
+    (hreach : reachesVia (instCfg id base j) ctx' (reinject out) = true)
+    (hup : (base j).upstream ≠ .failed) :
+    isForwarded (processRequest (instCfg id base j) ctx' (reinject out)) = true := by
+  have hti : TagClean (id i) := (hshape i).clean hname
+  have htj : TagClean (id j) := (hshape j).clean hname
+  obtain ⟨_, _, _, _, _, _, _, hw⟩ := forwarded_out h hri
+  have hl : ∀ e ∈ out.fields, lower e.1 = e.1 := by rw [hw]; exact writeRequest_names_lower _ _ _
+  have hchain := c18_chain_kept_full h hri hn hti
+  apply c18_foreign_chain_forwarded hn' htj _ hreach hup
+  intro e he
+  rw [viaLines_reinject hl, hchain] at he
+  rcases List.mem_append.mp he with he | he
+  · exact hclean e he
+  · simp only [List.mem_singleton] at he
+    rw [he]
+    exact same_name_not_infix (hshape j) (hshape i) (fun hc => hij (hinj hc).symm) r.minor
+
+example : Function.Injective (fun b : Bool => if b then tagX else tagW) ∧
+    (∀ b : Bool, TagShape (bs "fwd") (if b then tagX else tagW)) := by
+  refine ⟨fun a b h => ?_, fun b => ?_⟩
+  · have hne : tagX ≠ tagW := by decide +kernel
+    cases a <;> cases b <;> first | rfl | (simp only [Bool.false_eq_true, if_false, if_true] at h; first | exact absurd h hne | exact absurd h.symm hne)
+  · cases b
+    · exact (tagShape_iff (bs "fwd") tagW).mp (by decide +kernel)
+    · exact (tagShape_iff (bs "fwd") tagX).mp (by decide +kernel)
+
+/-- … and the same for a CONNECT travelling over an upstream-proxy link of either scheme. -/
+theorem c18_distinct_instances_connect_forwarded {ι : Type} (name : Bytes) (id : ι → Bytes) (base : ι → Cfg)
+    (hinj : Function.Injective id) (hshape : ∀ i, TagShape name (id i))
+    (hname : name.all isTokenByte = true) {i j : ι} (hij : i ≠ j) {ctx ctx' : Ctx} {c : ConnectReq}
+    {head : OutMsg}
+    (h : connectHead (processConnect (instCfg id base i) ctx c) = some head)
+    (hri : rulesAvoidVia (base i).connectRules = true)
+    (hn : viaNominated c.fields = false) (hn' : viaNominated (reinjectConnect head).fields = false)
+    (hclean : ∀ e ∈ viaElements (viaLines c.fields), ¬ id j <:+: e)
+    (hreach : connectReachesVia (instCfg id base j) (reinjectConnect head) = true)
+    (hup : ∀ sc hp a, (base j).upstream ≠ .other sc hp a) (hfail : (base j).upstream ≠ .failed) :
+    connectPassed (processConnect (instCfg id base j) ctx' (reinjectConnect head)) = true := by
+  have hti : TagClean (id i) := (hshape i).clean hname
+  have htj : TagClean (id j) := (hshape j).clean hname
+  obtain ⟨_, _, _, _, _, hl⟩ := connect_head_out h hri
+  obtain ⟨v, hv, hchain⟩ := c18_connect_head_appends h hri hn hti
+  apply c18_connect_foreign_forwarded hn' htj _ hreach hup hfail
+  intro e he
+  rw [viaLines_reinjectConnect hl, hv, hchain] at he
+  rcases List.mem_append.mp he with he | he
+  · exact hclean e he
+  · simp only [List.mem_singleton] at he
+    rw [he]
+    exact same_name_not_infix (hshape j) (hshape i) (fun hc => hij (hinj hc).symm) c.minor
+
+/-- The same instance always emits the same element — on every request and through every listener
+    (`ctx`, `ctx'`: plain or TLS) — so a real loop is refused at its first repetition. -/
+theorem c18_same_instance_loop_refused {ι : Type} (id : ι → Bytes) (base : ι → Cfg) (i : ι)
+    {ctx ctx' : Ctx} {r : Request} {hop : Hop} {out : OutMsg}
+    (h : processRequest (instCfg id base i) ctx r = .forwarded hop out)
+    (hr : rulesAvoidVia (base i).rules = true)
+    (hn' : viaNominated (reinject out).fields = false) :
+    isForwarded (processRequest (instCfg id base i) ctx' (reinject out)) = false ∧
+      (reachesVia (instCfg id base i) ctx' (reinject out) = true →
+        processRequest (instCfg id base i) ctx' (reinject out) = .refused 400 .loop) :=
+  c18_self_loop_terminates h hr hn'
+
+/-- Injectivity is needed: two DISTINCT instances that share a tag (any identifier that is not
+    injective over the instances) refuse each other's requests — a legitimate chain A → B ends with
+    `400 loop` at B. -/
+theorem c18_shared_tag_refuses_chain {ι : Type} (id : ι → Bytes) (base : ι → Cfg) {i j : ι}
+    (hid : id i = id j) {ctx ctx' : Ctx} {r : Request} {hop : Hop} {out : OutMsg}
+    (h : processRequest (instCfg id base i) ctx r = .forwarded hop out)
+    (hr : rulesAvoidVia (base i).rules = true)
+    (hn' : viaNominated (reinject out).fields = false) :
+    isForwarded (processRequest (instCfg id base j) ctx' (reinject out)) = false ∧
+      (reachesVia (instCfg id base j) ctx' (reinject out) = true →
+        processRequest (instCfg id base j) ctx' (reinject out) = .refused 400 .loop) := by
+  obtain ⟨p, _, hout, _, _, _, _, hw⟩ := forwarded_out h hr
+  have hl : ∀ e ∈ out.fields, lower e.1 = e.1 := by rw [hw]; exact writeRequest_names_lower _ _ _
+  have hfv : viaChain (viaLines (reinject out).fields) = newVia (id i) p.g.minor (viaChainOf p.h3) := by
+    rw [viaLines_reinject hl, hout]; rfl
+  apply tagged_not_forwarded hn'
+  · rw [hfv]; exact newVia_ne_nil _ _
+  · rw [hfv]
+    show isInfix (id j) _ = true
+    rw [← hid]
+    exact (isInfix_iff _ _).mpr (tag_infix_newVia _ _ _)
+
+/-- Witness: an identifier derived from the configuration VALUE (`idOfConfig`: what a field filled in
+    by the default-configuration constructor amounts to) is not injective over instances — two
+    instances built from one value get the same tag — and the chain A → B → origin, which the property
+    says is forwarded, is refused by B; with per-instance tags the same chain is forwarded. -/
+theorem c18_config_derived_tag_witness :
+    ¬ Function.Injective (fun _ : Bool => idOfConfig cfgWhttps) ∧
+      (runLoop [(instCfg (fun _ : Bool => idOfConfig cfgWhttps) (fun _ => cfgWhttps) false, ctxW),
+                (instCfg (fun _ : Bool => idOfConfig cfgWhttps) (fun b => if b then cfgW else cfgWhttps) true, ctxTLS)]
+          2 0 reqPlain).map isLoopRefusal = [false, true] ∧
+      (runLoop [(instCfg (fun b : Bool => if b then tagX else tagW) (fun _ => cfgWhttps) false, ctxW),
+                (instCfg (fun b : Bool => if b then tagX else tagW) (fun b => if b then cfgW else cfgWhttps) true, ctxTLS)]
+          2 0 reqPlain).map isForwarded = [true, true] := by
+  refine ⟨fun h => ?_, by decide +kernel, by decide +kernel⟩
+  exact absurd (h (a₁ := true) (a₂ := false) rfl) (by decide)
 
 end C18
 end FwdVerif
